@@ -12,9 +12,11 @@ GENE = "gene.gene.GeneInterval"
 FCOL = "gene.feature.FeatureIntervalCollection"
 
 
-def small_collection(S, kinds=("coding", "noncoding", "feature")):
-    """genes (coding / non-coding) and feature collections: one single-exon child each."""
+def small_collection(S, kinds=("coding", "noncoding", "feature"), chunk=None):
+    """genes (coding / non-coding) and feature collections: one single-exon child each.
+    chunk: a sequence-chunk parent every object (children and collection) is built on."""
     strand = strand_of(S, "strand")
+    X = {} if chunk is None else dict(parent_or_seq_chunk_parent=chunk)
     zero = S.enum_const(FRAME, "ZERO")
     info = []
     kids = []
@@ -22,32 +24,32 @@ def small_collection(S, kinds=("coding", "noncoding", "feature")):
         s, e = S.int(f"s{j}"), S.int(f"e{j}")
         S.assume(And(0 <= s, s < e))
         if kind == "feature":
-            f = S.new(FEATURE, [s], [e], strand, feature_id=f"f{j}")
-            kids.append(S.new(FCOL, [f], feature_collection_id="fc"))
+            f = S.new(FEATURE, [s], [e], strand, feature_id=f"f{j}", **X)
+            kids.append(S.new(FCOL, [f], feature_collection_id="fc", **X))
         elif kind == "split":
             # a gene whose two isoforms lie apart (possibly in different bins, none spanning the gene): the gene's
             # span [s, e) includes the stretch between them, which no isoform covers
             m1, m2 = S.int(f"m1_{j}"), S.int(f"m2_{j}")
             S.assume(And(s < m1, m1 <= m2, m2 < e))
-            t1 = S.new(TRANSCRIPT, [s], [m1], strand, transcript_id=f"tx{j}a")
-            t2 = S.new(TRANSCRIPT, [m2], [e], strand, transcript_id=f"tx{j}b")
-            kids.append(S.new(GENE, [t1, t2], gene_id=f"g{j}"))
+            t1 = S.new(TRANSCRIPT, [s], [m1], strand, transcript_id=f"tx{j}a", **X)
+            t2 = S.new(TRANSCRIPT, [m2], [e], strand, transcript_id=f"tx{j}b", **X)
+            kids.append(S.new(GENE, [t1, t2], gene_id=f"g{j}", **X))
         elif kind == "mixed":
             # a gene with a non-coding isoform (possibly flagged primary) next to a coding one: the gene is coding
-            nc = S.new(TRANSCRIPT, [s], [e], strand, transcript_id=f"tx{j}n", is_primary_tx=S.bool(f"primary{j}"))
+            nc = S.new(TRANSCRIPT, [s], [e], strand, transcript_id=f"tx{j}n", is_primary_tx=S.bool(f"primary{j}"), **X)
             cd = S.new(TRANSCRIPT, [s], [e], strand, transcript_id=f"tx{j}c", cds_starts=[s], cds_ends=[e],
-                       cds_frames=[zero])
-            kids.append(S.new(GENE, [nc, cd], gene_id=f"g{j}"))
+                       cds_frames=[zero], **X)
+            kids.append(S.new(GENE, [nc, cd], gene_id=f"g{j}", **X))
         else:
             kw = dict(transcript_id=f"tx{j}")
             if kind == "coding":
                 kw.update(cds_starts=[s], cds_ends=[e], cds_frames=[zero])
-            tx = S.new(TRANSCRIPT, [s], [e], strand, **kw)
-            kids.append(S.new(GENE, [tx], gene_id=f"g{j}"))
+            tx = S.new(TRANSCRIPT, [s], [e], strand, **kw, **X)
+            kids.append(S.new(GENE, [tx], gene_id=f"g{j}", **X))
         info.append(NS(s=s, e=e, coding=(kind in ("coding", "mixed")), kind=kind))
     genes = [k for k, kd in zip(kids, kinds) if kd != "feature"]
     fcs = [k for k, kd in zip(kids, kinds) if kd == "feature"]
-    col = S.new(AC, genes=genes, feature_collections=fcs)
+    col = S.new(AC, genes=genes, feature_collections=fcs, **X)
     return col, kids, info
 
 
@@ -160,6 +162,103 @@ class ChildrenOrder(Case):
         return sample_collection(rng)
 
 
+class QueryExpand(Case):
+    """query_by_position(start, end, completely_within=False, expand_location_to_children=True) end to end on a
+    collection holding a gene AND a feature collection (parentless, bounds inferred): the result keeps exactly the
+    members that share a position with the range, and its bounds are the range widened to the hull of EVERY kept
+    member - min over all their starts, max over all their ends, whatever order they are visited in (feature
+    collections before genes)."""
+    props = ("C09", "C20")
+    name = "AnnotationCollection.query_by_position[relaxed, expand_location_to_children: bounds = hull of range and kept members]"
+    func = AC + ".query_by_position"
+    module = "gene.collections"
+    shard_depth = 5
+    call = ("(lambda r: (r.start, r.end, [g.gene_id for g in r.genes], [c.feature_collection_id for c in r.feature_collections]))"
+            "(col.query_by_position(qs, qe, completely_within=False, expand_location_to_children=True))")
+    raises = {"InvalidQueryError": lambda i: Or(i.qs >= i.qe, i.qs < Min(i.info[0].s, i.info[1].s),
+                                                i.qe > Max(i.info[0].e, i.info[1].e))}
+    ensures = {
+        "bounds-are-the-hull-of-range-and-kept-members": lambda i, r: And(
+            r[0] == Min(i.qs, Min(If(_hit(i, 0), i.info[0].s, i.qs), If(_hit(i, 1), i.info[1].s, i.qs))),
+            r[1] == Max(i.qe, Max(If(_hit(i, 0), i.info[0].e, i.qe), If(_hit(i, 1), i.info[1].e, i.qe)))),
+        # the member lists have a concrete length on every path: the path condition must decide the overlap test
+        "gene-kept-iff-it-shares-a-position-with-the-range": lambda i, r: And(
+            len(r[2]) <= 1, _hit(i, 0) if len(r[2]) == 1 else Not(_hit(i, 0)), list(r[2]) in ([], ["g0"])),
+        "feature-collection-kept-iff-it-shares-a-position-with-the-range": lambda i, r: And(
+            len(r[3]) <= 1, _hit(i, 1) if len(r[3]) == 1 else Not(_hit(i, 1)), list(r[3]) in ([], ["fc"])),
+    }
+
+    def inputs(self, S):
+        col, kids, info = small_collection(S, ("coding", "feature"))
+        qs, qe = S.int("qs"), S.int("qe")
+        S.assume(0 <= qs)
+        return NS(col=col, kids=kids, info=info, qs=qs, qe=qe)
+
+    def samples(self, rng):
+        d = sample_collection(rng, 2)
+        for j in range(2):
+            d[f"s{j}"] = rng.randint(0, 10)
+            d[f"e{j}"] = d[f"s{j}"] + rng.randint(1, 6)
+        lo, hi = min(d["s0"], d["s1"]), max(d["e0"], d["e1"])
+        d["qs"] = rng.randint(max(0, lo - 1), hi)
+        d["qe"] = rng.randint(d["qs"], hi + 1)
+        return d
+
+
+def _sbin(a, b):
+    from .c16_bins import spec_bin
+    return spec_bin(a, b, 0)
+
+
+def _hit(i, j):
+    return Max(i.info[j].s, i.qs) < Min(i.info[j].e, i.qe)
+
+
+class ChildrenOrderOnChunk(Case):
+    """children / iteration order of a collection whose members (and the collection itself) are built on a sequence
+    chunk of either strand with ANY window (cutting members, missing them, reverse strand): ordered by CHROMOSOME
+    start - the chunk changes neither the order nor the bounds."""
+    props = ("C20", "C09", "C07", "C16")
+    name = "AnnotationCollection children sorted by chromosome start[gene + feature collection on a chunk of either strand, any window]"
+    func = AC + ".children"
+    module = "gene.collections"
+    shard_depth = 5
+    call = ("([c.start for c in col.children], len(col), col.start, col.end, [c.start for c in col.iter_children()], "
+            "col.bin, [c.bin for c in col.children])")
+    ensures = {
+        # stored bins are bins of CHROMOSOME spans (the collection's: its bounds; the members': their own spans)
+        "stored-bins-are-bins-of-chromosome-spans": lambda i, r: And(
+            r[5] == _sbin(i.cs, i.ce),
+            *[Or(*[And(r[0][a] == c.s, r[6][a] == _sbin(c.s, c.e)) for c in i.info]) for a in range(2)]),
+        "sorted-by-chromosome-start": lambda i, r: r[0][0] <= r[0][1],
+        "permutation-of-members": lambda i, r: And(*[Or(*[r[0][a] == c.s for c in i.info]) for a in range(2)],
+                                                   Or(r[0][0] != r[0][1], i.info[0].s == i.info[1].s)),
+        # documented: a collection built on a sequence chunk without explicit bounds takes the chunk's window
+        "len-and-bounds-are-the-chunk-window": lambda i, r: And(r[1] == 2, r[2] == i.cs, r[3] == i.ce),
+        "iteration-is-children": lambda i, r: And(*[a == b for a, b in zip(r[0], r[4])]),
+    }
+
+    def inputs(self, S):
+        from .c04_liftover import chunk_parent_stranded
+        cp, cs, ce, minus = chunk_parent_stranded(S)
+        S.assume(cs < ce)
+        col, kids, info = small_collection(S, ("coding", "feature"), chunk=cp)
+        return NS(col=col, info=info, cs=cs, ce=ce)
+
+    def samples(self, rng):
+        from .c04_liftover import sample_chunk
+        d = sample_collection(rng, 2)
+        for j in range(2):
+            d[f"s{j}"] = rng.randint(0, 12)
+            d[f"e{j}"] = d[f"s{j}"] + rng.randint(1, 6)
+        d.update(sample_chunk(rng, hi=8))
+        if d["chunk_end"] == d["chunk_start"]:
+            d["chunk_end"] += 1
+            d["chunk_seq"] = "A"
+        d["chunk_strand"] = rng.choice(["PLUS", "MINUS"])
+        return d
+
+
 class IdQueryBounds(Case):
     """_return_collection_for_id_queries (shared by every identifier / GUID query): the result spans the source
     bounds AND every kept member - min over ALL kept members' starts, max over ALL their ends, whatever the order in
@@ -213,5 +312,5 @@ ChildrenOrder.tier = "quick"  # 0.6 s since the overlap callee contract
 K3 = ("coding", "noncoding", "feature")
 CASES = [QueryByPosition(True, ("coding", "feature")), QueryByPosition(False, ("coding", "feature")),
          QueryByPosition(True, ("noncoding", "coding")), QueryByPosition(False, ("mixed", "noncoding")),
-         QueryByPosition(True, K3), QueryByPosition(False, K3), QueryValidation(), ChildrenOrder(),
+         QueryByPosition(True, K3), QueryByPosition(False, K3), QueryValidation(), ChildrenOrder(), ChildrenOrderOnChunk(), QueryExpand(),
          QueryByPosition(False, ("split", "feature")), QueryByPosition(True, ("split", "feature")), IdQueryBounds()]
